@@ -59,6 +59,7 @@ pub struct Args {
     pub of: usize,
     pub results: Option<String>,
     pub engine: String,
+    pub order: u64,
 }
 
 fn parse_args() -> Args {
@@ -77,6 +78,7 @@ fn parse_args() -> Args {
         of: 1,
         results: None,
         engine: String::new(),
+        order: 0,
     };
     let mut i = 2;
     while i < argv.len() {
@@ -112,6 +114,10 @@ fn parse_args() -> Args {
             }
             "--of" => {
                 a.of = v.parse().unwrap_or(1);
+                i += 1;
+            }
+            "--order" => {
+                a.order = v.parse().unwrap_or(0);
                 i += 1;
             }
             "--engine" => {
@@ -187,6 +193,7 @@ pub fn main() {
                 "C14" => uci::run_c09(&ctx, "C14"),
                 "C15" => uci::run_c15(&ctx),
                 "C10" => c10::run_c10(&ctx),
+                "C16" => uci::run_c16_uci(&ctx),
                 other => Err(format!("unknown uci property '{other}'")),
             };
             if let Err(e) = r {
@@ -198,7 +205,7 @@ pub fn main() {
                 "C11" => search::run_c11(&a.tier, a.seed, a.shard, a.of, a.only_job, a.time_cap),
                 "C12" => c12::run_c12(&a.tier, a.seed, a.shard, a.of, a.only_job, a.time_cap),
                 "C13" => search::run_c13(&a.tier, a.seed, a.shard, a.of, a.only_job, a.time_cap),
-                "C16" => search::run_c16(&a.tier, a.seed, a.shard, a.of, a.results.as_deref(), a.time_cap),
+                "C16" => search::run_c16(&a.tier, a.seed, a.shard, a.of, a.results.as_deref(), a.time_cap, a.order),
                 other => Err(format!("unknown search property '{other}'")),
             };
             if let Err(e) = r {
